@@ -55,6 +55,14 @@ func (e Elem) String() string    { return fmt.Sprintf("%v[%v]", e.Base, e.Index)
 
 type Zero struct{ T types.Type } // zero value of some type we do not model further
 
+// Closure is a function literal with its captured variables.
+type Closure struct {
+	Fn   *ssa.Function
+	Free []Val
+}
+
+func (c Closure) String() string { return "closure:" + c.Fn.Name() }
+
 func (c Const) String() string {
 	if c.V == nil {
 		return "nil"
@@ -133,6 +141,11 @@ type Evaluator struct {
 	GlobalInit func(name string) (Val, bool)
 	depth      int
 	ncell      int
+	// pendingFree: captured values for the closure body about to be evaluated
+	pendingFree []Val
+	// Fallback, when set, may replace a function of the module that has no entry in Summaries (handled=false: evaluate
+	// the body as usual)
+	Fallback func(fn *ssa.Function, args []Val) (v Val, handled bool, err error)
 }
 
 type Outcome struct {
@@ -186,6 +199,14 @@ func (ev *Evaluator) Eval(fn *ssa.Function, args []Val) (*Outcome, error) {
 	env := map[ssa.Value]Val{}
 	for i, p := range fn.Params {
 		env[p] = args[i]
+	}
+	if free := ev.pendingFree; free != nil {
+		ev.pendingFree = nil
+		for i, fv := range fn.FreeVars {
+			if i < len(free) {
+				env[fv] = free[i]
+			}
+		}
 	}
 	var prev *ssa.BasicBlock
 	b := fn.Blocks[0]
@@ -649,6 +670,20 @@ func (ev *Evaluator) instr(env map[ssa.Value]Val, in ssa.Value) (Val, error) {
 		}
 		x, idx = rebaseSlice(x, idx)
 		return ElemPtr{Base: x, Index: idx}, nil
+	case *ssa.MakeClosure:
+		f, ok := in.Fn.(*ssa.Function)
+		if !ok {
+			return nil, &Undecided{in.Pos(), "closure over a non-function"}
+		}
+		c := Closure{Fn: f}
+		for _, b := range in.Bindings {
+			v, err := ev.val(env, b)
+			if err != nil {
+				return nil, err
+			}
+			c.Free = append(c.Free, v)
+		}
+		return c, nil
 	case *ssa.Call:
 		return ev.call(env, in)
 	case *ssa.Index:
@@ -806,6 +841,14 @@ func (ev *Evaluator) binop(op token.Token, x, y Val, pos token.Pos) (Val, error)
 		}
 		if ix, ok := x.(Iface); ok && oky && cy.V == nil {
 			_ = ix
+			return Const{constant.MakeBool(op == token.NEQ)}, nil
+		}
+		// a modelled slice is non-nil
+		if _, ok := x.(*SliceV); ok && oky && cy.V == nil && (op == token.EQL || op == token.NEQ) {
+			return Const{constant.MakeBool(op == token.NEQ)}, nil
+		}
+		// the error constructors of the standard library never return nil
+		if tx, ok := x.(Term); ok && oky && cy.V == nil && (tx.Fn == "fmt.Errorf" || tx.Fn == "errors.New") && (op == token.EQL || op == token.NEQ) {
 			return Const{constant.MakeBool(op == token.NEQ)}, nil
 		}
 		// a bit vector with known high bits against a constant: decided by its value interval
@@ -1013,6 +1056,21 @@ func (ev *Evaluator) call(env map[ssa.Value]Val, in *ssa.Call) (Val, error) {
 	if err != nil {
 		return nil, err
 	}
+	if cl, ok := fv.(Closure); ok && len(cl.Fn.Blocks) > 0 {
+		// a function literal of the module: evaluate its body with the captured values
+		ev.pendingFree = cl.Free
+		if ev.pendingFree == nil {
+			ev.pendingFree = []Val{}
+		}
+		out, err := ev.Eval(cl.Fn, args)
+		if err != nil {
+			return nil, err
+		}
+		if out.Panic {
+			return nil, &Undecided{in.Pos(), "closure panics"}
+		}
+		return out.Ret, nil
+	}
 	t := Term{Fn: "dyn:" + fv.String(), Args: args}
 	ev.Trace = append(ev.Trace, t.String())
 	return t, nil
@@ -1030,6 +1088,11 @@ func (ev *Evaluator) apply(fn *ssa.Function, args []Val, pos token.Pos) (Val, er
 		t := Term{Fn: key, Args: args}
 		ev.Trace = append(ev.Trace, t.String())
 		return t, nil
+	}
+	if ev.Fallback != nil {
+		if v, handled, err := ev.Fallback(fn, args); handled {
+			return v, err
+		}
 	}
 	out, err := ev.Eval(fn, args)
 	if err != nil {
